@@ -88,7 +88,8 @@ Lemma parse_chunks_generic fuel ty fl body rest :
   in_u8 ty = true -> in_u8 fl = true -> in_u16 (len body + 4) = true ->
   parse_chunks (S fuel) (generic_bytes ty fl body ++ rest) 0 =
   match chunk_ctor ty fl body with
-  | Some r => bind r (fun c => bind (parse_chunks fuel rest 0) (fun cs => Ok (c :: cs)))
+  | Some r => if negb (nonempty body) && has_fixed_part ty then ValueErr
+              else bind r (fun c => bind (parse_chunks fuel rest 0) (fun cs => Ok (c :: cs)))
   | None => parse_chunks fuel rest 0
   end.
 Proof.
@@ -333,6 +334,17 @@ Proof. intros H. rewrite chunk_bytes_canon by exact H. apply generic_bytes_ok, w
 Lemma chunk_bytes_length_ge c : chunk_okb c = true -> (4 <= length (chunk_bytes c))%nat.
 Proof. intros H. rewrite chunk_bytes_canon, generic_bytes_length by exact H. lia. Qed.
 
+(* serialised chunks of the classes with a fixed part never have an empty body *)
+Lemma wire_body_fixed_nonempty c :
+  chunk_okb c = true -> negb (nonempty (wire_body c)) && has_fixed_part (chunk_type c) = false.
+Proof.
+  intros H. unfold chunk_okb in H.
+  destruct c as [f tsn sid sseq proto ud|ty f a b c d e ps|f ctsn rwnd gaps dups|ty f ps|f ctsn
+                 |ty f body|f ctsn streams]; try reflexivity.
+  - rewrite !andb_true_iff in H. cbn [chunk_type]. unfold has_fixed_part. apply andb_false_iff. right. lia.
+  - rewrite !andb_true_iff in H. cbn [chunk_type]. unfold has_fixed_part. apply andb_false_iff. right. lia.
+Qed.
+
 (* ------------------------------------------------------------------ a bundle of chunks *)
 Definition chunks_bytes (cs : list chunk) : bytes := flat_map chunk_bytes cs.
 
@@ -347,7 +359,7 @@ Proof.
     unfold chunks_bytes. cbn [flat_map]. rewrite chunk_bytes_canon by exact Hc.
     destruct (chunk_okb_type c Hc) as [Hty Hfl].
     rewrite parse_chunks_generic by (assumption || now apply wire_body_len).
-    rewrite chunk_ctor_wire by exact Hc. cbn [bind].
+    rewrite chunk_ctor_wire, wire_body_fixed_nonempty by exact Hc. cbn [bind].
     fold (chunks_bytes cs). rewrite IH by (assumption || lia). reflexivity.
 Qed.
 
@@ -463,4 +475,37 @@ Proof.
   - apply packet_bytes_ok, chunk_bytes_ok, Hc.
   - rewrite <- (app_nil_r (chunk_bytes c)). change (chunk_bytes c ++ []) with (chunks_bytes [c]).
     apply parse_packet_bundle; try assumption; [|discriminate]. cbn [forallb]. now rewrite Hc.
+Qed.
+
+(* a received chunk of a class with mandatory fields and an empty body (length field 4) is
+   rejected instead of being given default field values *)
+Lemma empty_fixed_chunk_rejected sp dp tag ty fl rest :
+  in_u16 sp = true -> in_u16 dp = true -> in_u32 tag = true ->
+  has_fixed_part ty = true -> in_u8 fl = true ->
+  parse_packet (packet_bytes sp dp tag (generic_bytes ty fl [] ++ rest)) = ValueErr.
+Proof.
+  intros Hsp Hdp Htag Hty Hfl. apply in_u16_iff in Hsp. apply in_u16_iff in Hdp. apply in_u32_iff in Htag.
+  assert (Hty8 : in_u8 ty = true) by (unfold has_fixed_part in Hty; unfold in_u8; lia).
+  set (body := generic_bytes ty fl [] ++ rest).
+  assert (Lb : (4 <= length body)%nat) by (subst body; rewrite app_length, generic_bytes_length; cbn [length]; lia).
+  rewrite parse_packet_checksum_okb.
+  2:{ unfold len. rewrite packet_bytes_length. unfold SCTP_PACKET_MINIMUM_LENGTH. lia. }
+  2:{ apply packet_bytes_checksum_ok. }
+  rewrite packet_bytes_length.
+  assert (R1 : u16 (packet_bytes sp dp tag body) 0 = Some sp) by (unfold packet_bytes; rd).
+  assert (R2 : u16 (packet_bytes sp dp tag body) 2 = Some dp) by (unfold packet_bytes; rd).
+  assert (R3 : u32 (packet_bytes sp dp tag body) 4 = Some tag) by (unfold packet_bytes; rd).
+  rewrite R1, R2, R3. unfold packet_bytes.
+  set (crc := crc32c _).
+  rewrite (app_assoc _ (le32 crc)).
+  change 12%nat with (length ((be16 sp ++ be16 dp ++ be32 tag) ++ le32 crc) + 0)%nat at 2.
+  rewrite parse_chunks_shift. subst body. rewrite parse_chunks_generic by (assumption || reflexivity).
+  rewrite Hty. cbn [nonempty negb andb].
+  unfold has_fixed_part in Hty. unfold chunk_ctor.
+  destruct (ty =? 0); [reflexivity|]. destruct ((ty =? 1) || (ty =? 2)) eqn:E1; [reflexivity|].
+  destruct (ty =? 3); [reflexivity|].
+  destruct ((ty =? 4) || (ty =? 5) || (ty =? 6) || (ty =? 9) || (ty =? 130)); [reflexivity|].
+  destruct (ty =? 7) eqn:E7; [reflexivity|].
+  destruct ((ty =? 8) || (ty =? 10) || (ty =? 11) || (ty =? 14)); [reflexivity|].
+  destruct (ty =? 192) eqn:E9; [reflexivity|]. lia.
 Qed.
